@@ -378,30 +378,22 @@ def vocabulary_rules(ctx):
         obs.append(ob("C14.prefix/events/anchor", False, "stringify/tag.rs", "common attribute printer not found"))
     else:
         g = wc[0]
+        import minieval
         tree = None
         for n in sir.walk(g.body):
-            if n.get("k") == "local" and n["pat"].get("name") == "prefix" and n.get("init") is not None and n["init"].get("k") == "if":
+            if n.get("k") == "local" and n["pat"].get("k") == "p_ident" and n.get("init") is not None and n["init"].get("k") in ("if", "match") \
+                    and {"is_catch", "is_mut", "is_capture"} <= set(x.get("name") for x in sir.walk(n["init"]) if x.get("k") == "field"):
                 tree = n["init"]
         if tree is None:
-            obs.append(ob("C14.prefix/events/tree", False, ctx.where(g), "event prefix decision tree not found"))
+            obs.append(ob("C14.prefix/events/tree", None, ctx.where(g), "the printer's choice of the event prefix is not a decision over (is_catch, is_mut, is_capture) that this rule reads"))
         else:
-            def ev(t, env):
-                if t.get("k") == "if":
-                    c = sir.expr_str(t["cond"])
-                    neg = c.startswith("!")
-                    fld = c.lstrip("!").split(".")[-1]
-                    val = env[fld] != neg
-                    br = t["then"] if val else t["else"]
-                    return ev(br, env)
-                if t.get("k") == "block":
-                    last = t["stmts"][-1]
-                    return ev(last["e"], env)
-                if t.get("k") == "lit":
-                    return t["v"]
-                return None
             for pfx, (c, mu, ca) in sorted(ev_table.items()):
-                got = ev(tree, {"is_catch": c, "is_mut": mu, "is_capture": ca})
-                obs.append(ob("C14.prefix/events/%s" % pfx, got == pfx, ctx.where(g), "parser maps `%s:` to (catch=%s, mut=%s, capture=%s); the printer's decision tree prints `%s:` for those flags" % (pfx, c, mu, ca, got)))
+                try:
+                    got = minieval.ev(tree, {"$field": {"is_catch": c, "is_mut": mu, "is_capture": ca}})
+                    okp = got == pfx
+                except minieval.Unknown as ex:
+                    got, okp = "? (%s)" % ex, None
+                obs.append(ob("C14.prefix/events/%s" % pfx, okp, ctx.where(g), "parser maps `%s:` to (catch=%s, mut=%s, capture=%s); the printer's decision prints `%s:` for those flags" % (pfx, c, mu, ca, got)))
     return obs
 
 
